@@ -128,12 +128,28 @@ class Exec:
             proc.add_process_listener(self.listener)
             if self.case.get('listener_twice'):
                 proc.add_process_listener(self.listener)  # registration is idempotent
+        for spec in self.case.get('observers', ()):
+            self._add_oneshot_observer(proc, spec)
         if not proc.has_terminated():
             if self.case.get('cleanup_follow_up') and self.follow_up is None:
                 self.follow_up = Cleanup()
                 self.cleanups[0].follow_up = (proc, self.follow_up)
             for cleanup in self.cleanups:
                 proc.add_cleanup(cleanup)
+
+    def _add_oneshot_observer(self, proc, spec):
+        """A state-event callback registered through the public API that unregisters itself when it has seen its n-th
+        event (a one-shot observer); registered after the monitor, so that nothing of the harness sits behind it."""
+        hook = {'entered': StateEventHook.ENTERED_STATE, 'entering': StateEventHook.ENTERING_STATE, 'exiting': StateEventHook.EXITING_STATE}[spec['hook']]
+        seen = [0]
+
+        def oneshot(process, _hook, _state):
+            seen[0] += 1
+            if seen[0] == spec['occ']:
+                process.remove_state_event_callback(hook, oneshot)
+                self.world.extra.setdefault('oneshot_removed', []).append((spec['hook'], spec['occ'], process.state.value))
+
+        proc.add_state_event_callback(hook, oneshot)
 
     def launch_task(self):
         with self.loop.as_running():
@@ -264,6 +280,7 @@ class Exec:
             if self.task is not None and not self.task.done():
                 with self.loop.as_running():
                     self.task.cancel()
+                self.harness_cancelled = self.task
             self.events.append({'ev': ev})
             self.drain()
             self.sample(kind)
@@ -419,6 +436,7 @@ class Exec:
         except Exception as exc:  # noqa: BLE001
             out['closed'] = f'error:{type(exc).__name__}'
         if self.task is not None:
+            out['task_harness_cancelled'] = getattr(self, 'harness_cancelled', None) is self.task
             out['task_done'] = self.task.done()
             if self.task.done():
                 out['task_cancelled'] = self.task.cancelled()
